@@ -142,7 +142,7 @@ def wrap_witness(spec):
 
 def run(res):
     quick = res.tier == "quick"
-    specs = [dict(seed=res.seed, idx=i, max_patches=(18 if quick else 34)) for i in range(10 if quick else 120)]
+    specs = [dict(seed=res.seed, idx=i, max_patches=(18 if quick else 34)) for i in range(10 if quick else 300)]
     for r in fw.run_parallel(scene_case, specs):
         res.absorb(r)
     for r in fw.run_parallel(wrap_witness, [{}]):
